@@ -60,6 +60,25 @@ def parseCost : Val → Option (Option (List Float → Float))
   | .list [c0, a, b] => do pure (some (costF (← c0.asFloat?) (← a.asFloats?) (← b.asFloats?)))
   | _ => none
 
+/-! #### Collapse* settings (same encodings as the C11 driver) -/
+
+def parseTarget : Val → Option (Clps.Target Float)
+  | .sym "none" => some .none
+  | .list [.sym "s", t] => do pure (.scalar (← t.asFloat?))
+  | .list [.sym "v", ts] => do pure (.vec (← ts.asFloats?))
+  | _ => none
+
+def parseElem : Val → Option Clps.MElem
+  | .int i => some (.idx i)
+  | .list (.sym "q" :: is) => do pure (.seq (← is.mapM Val.asInt?))
+  | _ => none
+
+def parseSetMask : Val → Option Clps.SetMask
+  | .sym "none" => some .none
+  | .sym "other" => some .other
+  | .list [.sym "set", .list es] => do pure (.set (← es.mapM parseElem))
+  | _ => none
+
 def optInt? : Val → Option (Option Int)
   | .sym "none" => some none
   | .int i => some (some i)
@@ -83,6 +102,10 @@ def parsePrim : List Val → Option (Prim Float)
   | [.sym "vtrcog", ft, gt, g, tgt] => do pure (.vtrcog (← ft.asFloat?) (← gt.asFloat?) (← optInt? g) (← tgt.asFloat?))
   | [.sym "popspread", tol] => do pure (.popspread (← tol.asFloat?))
   | [.sym "gradnorm", tol] => do pure (.gradnorm (← tol.asFloat?))
+  | [.sym "collapseAt", tgt, tols, .int g, m] => do
+      pure (.collapseAt (← parseTarget tgt) (← tols.asFloats?) g (← parseSetMask m))
+  | [.sym "collapseAs", off, tol, .int g, m] => do
+      pure (.collapseAs (← off.asBool?) (← tol.asFloat?) g (← parseSetMask m))
   | [.sym "gradnormP", tol, n] => do pure (.gradnormP (← tol.asFloat?) (← parseNorm n) epsilon)
   | [.sym "evallimits", g, e] => do pure (.evallimits (← optInt? g) (← optInt? e))
   | [.sym "timelimits", s, sys, s0, s1, s2] => do
@@ -116,10 +139,11 @@ def parseView (args : List Val) : Option (View Float) := do
   -- optional extensions (absent in requests of other drivers)
   let gradNone := ((kw? args "gradnone").bind Val.asBool?).getD false
   let cost := ((kw? args "cost").bind parseCost).getD none
+  let steps := ((kw? args "steps").bind parseRows).getD []
   match clock with
   | [t0, t1, t2] =>
     pure { hist, pop, popE, best, trial, trial2d, grad, gens, fcalls, earlyExit := early,
-           tTime := t0, tPerf := t1, tProc := t2, gradNone, cost }
+           tTime := t0, tPerf := t1, tProc := t2, gradNone, cost, steps }
   | _ => none
 
 def pOut : POut → String
@@ -181,10 +205,21 @@ def handle : Handler
         | some er => "err-" ++ pErr er
         | none => pOut (q.out v)
     let built := pCond c
+    -- what a satisfied Collapse* condition reports after ' at ' (`n`: nothing)
+    let pay := ps.map fun p => match p.err v with
+      | some _ => "n"
+      | none => match p.payload v with
+        | [] => "n"
+        | l => "(" ++ " ".intercalate (l.map pNs) ++ ")"
     match c.firstErr v with
-    | some er => return s!"ok raised={pErr er} prims={pL pouts} rb={pL rb} built={built}"
+    | some er => return s!"ok raised={pErr er} prims={pL pouts} rb={pL rb} pay={pL pay} skeys={pNs c.stateKeys} built={built}"
     | none =>
-      return s!"ok b={pB (c.evalB v)} info={pAtoms (c.info v)} self={pIdx (c.selfRes v)} not={pIdx (c.notRes v)} den={pB (e.den v)} prims={pL pouts} rb={pL rb} built={built}"
+      return s!"ok b={pB (c.evalB v)} info={pAtoms (c.info v)} self={pIdx (c.selfRes v)} not={pIdx (c.notRes v)} den={pB (e.den v)} prims={pL pouts} rb={pL rb} pay={pL pay} skeys={pNs c.stateKeys} built={built}"
+  | .sym "eq" :: args => Id.run do
+    -- `c1 == c2` of two constructed conditions (functions by identity, tuples element-wise whatever their class)
+    let some e1 := (kw? args "a").bind parseExpr | return "bad-op"
+    let some e2 := (kw? args "b").bind parseExpr | return "bad-op"
+    return s!"ok eq={pB (Cond.keyEq e1.build e2.build)}"
   | .sym "approx" :: args => Id.run do
     -- approx_fprime(best, cost, _epsilon): the evaluation points in order and the gradient
     let some best := (kw? args "best").bind Val.asFloats? | return "bad-op"
